@@ -5,18 +5,18 @@ from harness import tlc, graph, judge, tlaval
 from harness import pitkit
 
 INVS = ['TypeOK', 'NoResidue', 'RightOutcome']
-PROPS = ['OnceOnly', 'NoUnvalidatedData', 'AllAndOnlyMatching', 'JunkInert']
-WITNESSES = ['W_DataAtDeadline', 'W_TimeoutWhileValidating', 'W_TwoSatisfied', 'W_NackOne', 'W_VFail']
+PROPS = ['OnceOnly', 'NoUnvalidatedData', 'BufferedValidated', 'BufferedIsDelivered', 'AllAndOnlyMatching', 'JunkInert']
+WITNESSES = ['W_DataAtDeadline', 'W_TimeoutWhileValidating', 'W_TwoSatisfied', 'W_NackOne', 'W_VFail', 'W_LateAwaitData']
 
 JUNK_BASIC = ['6400', '0500', '0600', 'ff', '0a0102', '640350017f', '060107']
 
 
-def mc_cfg(name, front, entries, maxt, T, V, R='R_one', E='E_one', J='J_one', dev='NoDev', live=False,
+def mc_cfg(name, front, entries, maxt, T, V, R='R_one', E='E_one', J='J_one', dev='NoDev', live=False, defer='Def_no',
            invs=INVS, props=PROPS):
     p = os.path.join(tlc.BUILD, name + '.cfg')
     tlc.write_cfg(p, constants={'Front': '"%s"' % front, 'MaxEntries': entries, 'MaxT': maxt,
                                 'Templates': '<- T_' + T, 'DataSet': '<- D_' + T, 'Verdicts': '<- V_' + V,
-                                'Reasons': '<- ' + R, 'Envs': '<- ' + E, 'Junk': '<- ' + J, 'Dev': '<- ' + dev},
+                                'Reasons': '<- ' + R, 'Envs': '<- ' + E, 'Junk': '<- ' + J, 'Defer': '<- ' + defer, 'Dev': '<- ' + dev},
                   invariants=invs, properties=list(props) + (['Finishes'] if live else []))
     return p
 
@@ -27,7 +27,7 @@ def trace_cfg(front, dev):
                   constants={'Front': '"%s"' % front, 'MaxEntries': 8, 'MaxT': 100000,
                              'Templates': '<- TrNone', 'DataSet': '<- TrNone', 'Verdicts': '<- TrVerdicts',
                              'Reasons': '<- TrReasons', 'Envs': '<- TrEnvs', 'Junk': '<- TrJunk',
-                             'Dev': '<- ' + ('DevLegacy' if dev == 'legacySlowValidator' else 'NoDev')},
+                             'Defer': '<- Def_both', 'Dev': '<- ' + ('DevLegacy' if dev == 'legacySlowValidator' else 'NoDev')},
                   invariants=['TypeOK', 'NoResidue'], constraints=['Mark'], postcondition='Post')
     return p
 
@@ -66,7 +66,7 @@ def stage_a(ctx, configs, witnesses_front='v2'):
         if cov_total.get(a, 0) == 0:
             raise tlc.MachineryError('vacuous: NdnPit action %s never taken in stage A' % a)
     ctx.extra.setdefault('action_coverage', {}).update(cov_total)
-    wp = mc_cfg('pit-w', witnesses_front, 2, 3, 'small', 'v2two', invs=WITNESSES, props=[])
+    wp = mc_cfg('pit-w', witnesses_front, 2, 3, 'small', 'v2two', invs=WITNESSES, props=[], defer='Def_both')
     check_witnesses('NdnPitMC', wp, WITNESSES)
 
 
@@ -76,8 +76,12 @@ def events_of_path(path, vmap=None):
     vmap = vmap or {}
     for act, args, _ in path:
         a = [tlaval.to_json(x) for x in args]
-        if act in ('Express', 'ExpressDown'):
+        if act == 'Express':
+            evs.append({'a': act, 't': a[0], 'defer': bool(a[1])})
+        elif act == 'ExpressDown':
             evs.append({'a': act, 't': a[0]})
+        elif act == 'Await':
+            evs.append({'a': act, 'e': a[0]})
         elif act == 'RecvData':
             evs.append({'a': act, 'd': a[0], 'env': a[1]})
         elif act in ('ValFinish', 'LateFinish'):
@@ -115,7 +119,7 @@ def record(front, schedule):
 
 def nontrivial_key(evs):
     acts = [e['a'] for e in evs]
-    interesting = sum(1 for a in acts if a in ('Fire', 'Cancel', 'Shutdown', 'RecvNack', 'ValFinish', 'RecvJunk'))
+    interesting = sum(1 for a in acts if a in ('Fire', 'Cancel', 'Shutdown', 'RecvNack', 'ValFinish', 'RecvJunk', 'Await'))
     nexp = acts.count('Express')
     if nexp >= 1 and interesting >= 1 and len(acts) >= 3:
         return json.dumps([[e['a']] + [e.get(k) for k in ('t', 'd', 'e', 'v', 'r', 'env')] for e in evs], sort_keys=True)
@@ -162,10 +166,10 @@ NAMES = [['a'], ['a', 'b'], ['a', 'b', 'c'], ['a', 'c'], ['b'], ['a', 'b', 'd']]
 
 
 def random_schedule(rng, front, n_events, weights=None, junk=None, verdicts=None, envs=('bare', 'lp', 'lph', 'lpo'),
-                    max_entries=6):
+                    max_entries=6, defer_p=0.2):
     """Generates stimuli on the fly while running the real code (the driver needs to know which
     validators are in flight and which timers are due). Returns the recorded trace record."""
-    w = dict(Express=5, RecvData=6, ValFinish=6, Time=6, Cancel=1, Shutdown=0.2, RecvNack=2, RecvJunk=1)
+    w = dict(Express=5, RecvData=6, ValFinish=6, Time=6, Cancel=1, Shutdown=0.2, RecvNack=2, RecvJunk=1, Await=3)
     if weights:
         w.update(weights)
     verdicts = verdicts or (['PASS', 'PASS', 'FAIL', 'TIMEOUT', 'SILENCE', 'BYPASS', 'RAISE'] if front == 'v2' else ['T', 'T', 'F'])
@@ -183,9 +187,11 @@ def random_schedule(rng, front, n_events, weights=None, junk=None, verdicts=None
         post = None
         for _ in range(n_events):
             now = run.tick()
-            unfinished = [i for i, t in enumerate(run.tasks) if not t.done()]
+            unfinished = [i for i, t in enumerate(run.tasks) if t is not None and not t.done()]
             # timers: the spec requires Fire before time passes an unfinished entry's deadline
             due = [i for i in unfinished if entries[i]['dl'] == now]
+            # deferred Interests that may be awaited now: before their deadline, or (v2) once a verdict was given
+            awaitable = [i for i, t in enumerate(run.tasks) if t is None and (now < entries[i]['dl'] or entries[i].get('verdict'))]
             pend_val = [(i + 1) for i in range(len(run.vfut)) if any(not f.done() for f in run.vfut[i])]
             choices = []
             up = run.face.running
@@ -200,6 +206,8 @@ def random_schedule(rng, front, n_events, weights=None, junk=None, verdicts=None
             choices.append('Time')
             if unfinished:
                 choices.append('Cancel')
+            if awaitable:
+                choices.append('Await')
             a = rng.choices(choices, [w.get('Express' if c == 'ExpressDown' else c, 1) for c in choices])[0]
             if a in ('Express', 'ExpressDown'):
                 name = rng.choice(NAMES)
@@ -209,9 +217,11 @@ def random_schedule(rng, front, n_events, weights=None, junk=None, verdicts=None
                     dig = rng.choice([1, 2]) + 10 * NAMES.index(name)
                     cbp = False
                 t = {'name': name, 'cbp': cbp, 'dig': dig, 'life': rng.choice([1, 1, 2, 3])}
-                emit({'a': a, 't': t})
                 if a == 'Express':
+                    emit({'a': a, 't': t, 'defer': rng.random() < defer_p})
                     entries.append({'t': t, 'dl': now + t['life']})
+                else:
+                    emit({'a': a, 't': t})
             elif a == 'RecvData':
                 name = rng.choice(NAMES)
                 d = {'name': name, 'id': rng.choice([1, 2]) + 10 * NAMES.index(name)}
@@ -227,7 +237,12 @@ def random_schedule(rng, front, n_events, weights=None, junk=None, verdicts=None
                 hx, jc = hx if isinstance(hx, tuple) else (hx, 'junk')
                 emit({'a': a, 'j': jc, 'hex': hx})
             elif a == 'ValFinish':
-                emit({'a': a, 'e': rng.choice(pend_val), 'v': rng.choice(verdicts)})
+                e = rng.choice(pend_val)
+                emit({'a': a, 'e': e, 'v': rng.choice(verdicts)})
+                if front == 'v2':
+                    entries[e - 1]['verdict'] = True
+            elif a == 'Await':
+                emit({'a': a, 'e': rng.choice(awaitable) + 1})
             elif a == 'Time':
                 if due:
                     emit({'a': 'Fire'})
@@ -240,7 +255,7 @@ def random_schedule(rng, front, n_events, weights=None, junk=None, verdicts=None
         # drain: resolve validators, pass every deadline; everything must have finished
         for _ in range(12):
             now = run.tick()
-            unfinished = [i for i, t in enumerate(run.tasks) if not t.done()]
+            unfinished = [i for i, t in enumerate(run.tasks) if t is not None and not t.done()]
             pend_val = [(i + 1) for i in range(len(run.vfut)) if any(not f.done() for f in run.vfut[i])]
             if not unfinished and not pend_val:
                 break
